@@ -6,9 +6,9 @@ F = "fibertree/core/iterators.py"
 ELEM = "tuple[int,Payload|Fiber]"          # ghost view of a yielded CoordPayload: (coord, payload reference)
 BOOK = ["self._saved_pos", "self._saved_count", "self._saved_dist"]
 
-contract(F, "_prep_metrics_inc", verify=False, tier="T", types=dict(fiber="Fiber"), returns="tuple[bool,str]", modifies=[],
+contract(F, "_prep_metrics_inc", types=dict(fiber="Fiber"), returns="tuple[bool,str]", modifies=[],
          ensures=["result[0] == Metrics.collecting"],
-         note="rank id string through owner/rank attrs delegation (not modelled)")
+         note="the rank id string comes through the owner / rank attributes (accessors executed from their real bodies)")
 
 # qualifying element j of iterRange: in the half-open range and not empty
 QUAL = ("((isnone(start) or self.coords[%(j)s] >= val(start)) and (isnone(end) or self.coords[%(j)s] < val(end))"
